@@ -1026,8 +1026,8 @@ func Run(o *core.Options) int {
 		return 2
 	}
 	tot := wl.NewCollector(0, 1, time.Time{})
+	wl.MergeAll(cs, r)
 	for _, c := range cs {
-		c.MergeInto(r)
 		for k, v := range c.Counts {
 			tot.Counts[k] += v
 		}
